@@ -171,6 +171,13 @@ class CallMixin:
         # builtin base behind super()
         found = src.find_method(cls, name, after=after) if cls in src.classes or after else None
         contract = reg.find(src, cls, name, after=after)
+        if found is None and contract is None and after is None and recv.e is not None and self.reg.attr_decl(src, cls, name):
+            for st1, fv in self.getattr_(st, recv, name, cx):
+                if isinstance(fv, Raise):
+                    yield st1, fv
+                else:
+                    yield from self.call_value(st1, fv, args, kwargs, cx)
+            return
         if found is None and contract is None:
             if after is not None:
                 for b in src.mro(cls)[src.mro(cls).index(after) + 1:]:
@@ -521,6 +528,14 @@ class CallMixin:
         sp = cx.spec
         A = lambda i: self.ev1(st, e.args[i], cx)
         T = lambda i: o.truthy(st, A(i))
+        if cx.defs and fn in cx.defs:
+            params, body = cx.defs[fn]
+            vals = [A(i) for i in range(len(e.args))]
+            names = dict(sp.names)
+            names.update(dict(zip(params, vals)))
+            sp2 = Spec(sp.old, names, sp.oldnames, sp.exc, sp.mode)
+            sp2.skolems = sp.skolems
+            return self.ev1(st, self.parse_spec(body), cx.with_spec(sp2))
         if fn == "old":
             cx2 = cx.with_spec(Spec(sp.old, sp.oldnames, sp.oldnames, sp.exc, sp.mode))
             return self.ev1(sp.old, e.args[0], cx2)
